@@ -388,6 +388,21 @@ func (w *weaver) run() bool {
 
 	if w.changed {
 		astutil.AddImport(w.fset, w.file, zzsimPath)
+		// imports that the rewrites made unused
+		for _, path := range []string{"net", "os", "crypto/tls", "math/rand", "crypto/rand", "sync"} {
+			if !astutil.UsesImport(w.file, path) {
+				for _, im := range w.file.Imports {
+					if im.Path.Value == strconv.Quote(path) && (im.Name == nil || (im.Name.Name != "_" && im.Name.Name != ".")) {
+						name := ""
+						if im.Name != nil {
+							name = im.Name.Name
+						}
+						astutil.DeleteNamedImport(w.fset, w.file, name, path)
+						break
+					}
+				}
+			}
+		}
 	}
 	return w.changed
 }
